@@ -14,6 +14,7 @@ d (round 3)  apply_correction on an orbit that already holds a state 1e-9 away: 
 e (round 3)  the crossing search and the operators' STM run in the configured time direction (C11.e direction rule re-filed; call-site rule)
 e (round 4)  options chain: create_problem + to_backend_inputs interpreted with symbolic options (tolerance, limits, direction, order, steps, indices, event reach the operators / the request);
    e-crossing: C11.e's wrapper rules re-filed (the end of the search window is never a hit)
+d-members (round 5)  C13.f re-filed: members of a continuation carry the period (and, known finding, the correction scheme) of their own correction
 """
 from __future__ import annotations
 
@@ -79,6 +80,9 @@ def run(tier):
     # the half period is a genuine crossing: reaching the end of the search window is "no crossing", never a hit (C11.e's wrapper rules re-filed)
     from .common import Relabel as _Relabel
     c11._e_wrapper(_Relabel(chk, {"C11.e": "C05.e-crossing"}))
+    # orbits corrected on behalf of a continuation are handed out with the period of THEIR correction (C13.f re-filed)
+    from . import c13 as _c13
+    _c13._f_members(_Relabel(chk, {"C13.f": "C05.d-members", "C13.b": "C05.d-members"}))
     return chk
 
 
